@@ -667,7 +667,11 @@ class Gen(object):
         if x is None:
             return None
         if self.chance(0.15) and len(self.props()) > 1:
-            y = self.pick(self.props())
+            # state-directed: preferably a Property of the same dtype that holds values (what one
+            # Property stores is valid input for another)
+            alike = [p for p in self.props() if p is not x and p.dtype == x.dtype and len(p.values)
+                     and len(x.values)]
+            y = self.pick(alike) if alike and self.chance(0.7) else self.pick(self.props())
             return {"op": "v_extend_prop", "x": self.ref(x), "y": self.ref(y)}
         return {"op": "v_extend", "x": self.ref(x), "v": self.value_for(x.dtype),
                 "strict": self.chance(0.6)}
